@@ -104,9 +104,10 @@ NSMAP = TMap(STR, STR)
 
 CSSMATCH = ObjType('CSSMatch',
                    immut=dict(tag=NODE, selectors=SELLIST, flags=INT, root=NODE, scope=NODE, has_html_namespace=BOOL,
-                              is_xml=BOOL, is_html=BOOL, cached_meta_lang=TSeq(INT), cached_default_forms=TSeq(INT),
-                              cached_indeterminate_forms=TSeq(INT)),
-                   mut=dict(namespaces=NSMAP, iframe_restrict=BOOL),
+                              is_xml=BOOL, is_html=BOOL),
+                   # per-call state: the namespace map / iframe flag swapped around HTML-only lists, and the three memo tables
+                   mut=dict(namespaces=NSMAP, iframe_restrict=BOOL, cached_default_forms=TSeq(TTup(NODE, NODE)),
+                            cached_meta_lang=TSeq(INT), cached_indeterminate_forms=TSeq(INT)),
                    cls_qual='soupsieve.css_match.CSSMatch')
 
 
@@ -127,6 +128,7 @@ def install(world):
     SELLIST.truthy = lambda term: z3.Length(SELLIST.get(term, 'selectors')) > 0
     SELLANG.truthy = lambda term: z3.Length(SELLANG.get(term, 'languages')) > 0
     world.tree = sys.modules[__name__]
+    world.watch_decls = set(getattr(world, 'watch_decls', ())) | {'ascii_lower'}
     bs4 = world.module('bs4')
 
     # ---- symbolic side of the tree primitives (spec/vocab_tree.py)
@@ -410,11 +412,18 @@ def install(world):
     def axioms(world_, formulas):
         node_terms = {}
         nth_terms = {}
+        lowers = {}
         for f in formulas:
-            _, nodes, nths = world_.scan(f)
+            _, nodes, nths, watched = world_.scan(f)
             node_terms.update(nodes)
             nth_terms.update(nths)
+            lowers.update(watched)
         ax = []
+        # util.lower preserves length (proved for the real function over code points, contracts/strings.py); the same fact
+        # for its SMT-string view ascii_lower
+        for t in lowers.values():
+            if t.decl().name() == 'ascii_lower':
+                ax.append(z3.Length(t) == z3.Length(t.arg(0)))
         # one extra round: parents of the terms found
         extra = {}
         for t in list(node_terms.values()):
